@@ -66,8 +66,38 @@ def reconstruct (pre shortIds : List Nat) (pool : List (Nat × Nat)) : Except Er
       let positionOf := shortIds.zip free
       .ok (pool.foldl (step positionOf) ⟨slots0, [], []⟩).slots
 
-/-- `PartialBlock.fill` with the transactions the block really has at the missing positions
-    (`blk` = the original block as wtxids): what the filled block is. -/
+inductive FillErr | count
+  deriving DecidableEq, Repr
+
+/-- the list comprehension of `PartialBlock.fill`: the supplied transactions are taken in order for the
+    `None` entries -/
+def fillGo : List (Option Nat) → List Nat → List Nat
+  | [], _ => []
+  | some t :: r, s => t :: fillGo r s
+  | none :: r, x :: s => x :: fillGo r s
+  | none :: r, [] => fillGo r []
+
+/-- `PartialBlock.fill(transactions)`: exactly as many as are missing, else refused; `transactions` of a
+    partial block are a wtxid or `none`. -/
+def fillP (part : List (Option Nat)) (supplied : List Nat) : Except FillErr (List Nat) :=
+  if supplied.length ≠ (part.filter Option.isNone).length then .error .count
+  else .ok (fillGo part supplied)
+
+/-- the `PartialBlock` `reconstruct` returns when the announced block is `blk` (wtxids): prefilled
+    positions hold the block's own transactions, pool hits hold the pool transaction, the rest `None` -/
+def partialView : List Slot → List Nat → List (Option Nat)
+  | .pool w :: r, _ :: bs => some w :: partialView r bs
+  | .prefilled :: r, b :: bs => some b :: partialView r bs
+  | .missing :: r, _ :: bs => none :: partialView r bs
+  | _, _ => []
+
+/-- the block's transactions at the positions still missing, in order (what `blocktxn` answers) -/
+def missingOf : List Slot → List Nat → List Nat
+  | .missing :: r, b :: bs => b :: missingOf r bs
+  | _ :: r, _ :: bs => missingOf r bs
+  | _, _ => []
+
+/-- the filled block when every pool hit is kept and the rest comes from the block (used in proofs) -/
 def fill (slots : List Slot) (blk : List Nat) : List Nat :=
   (slots.zip blk).map fun
     | (.pool w, _) => w
